@@ -67,6 +67,8 @@ def main(tier: str, seed: int, replay: str | None = None) -> int:
                 return E.gen_elim_two_step(rng, h)
             if k % 10 == 2:
                 return E.gen_wp_program(rng, h)
+            if k % 10 == 7:
+                return E.gen_misc_program(rng, h)
             return E.gen_program(rng, h, constrained=(k % 4 != 0))
         items.append((h, [(one(k), []) for k in range(npg)]))
     stats = {"accepted": 0, "rejected": 0, "checker_validated": 0, "groundings": 0,
@@ -112,7 +114,15 @@ def main(tier: str, seed: int, replay: str | None = None) -> int:
             stats["rejected"] += 1
             stats["errors"][err[0]] = stats["errors"].get(err[0], 0) + 1
 
+    lc = C.LineCoverage("transforge/type.py", [
+        "Type.apply", "TypeSchema.instance", "TypeInstance.fix", "TypeInstance.follow", "TypeInstance.match",
+        "TypeInstance.unify", "TypeInstance.__contains__", "TypeInstance.variables", "TypeVariable.check_constraints",
+        "TypeVariable.bind", "TypeVariable.above", "TypeVariable.below", "Constraint.inform", "Constraint.variables",
+        "SubtypeConstraint.fulfill", "EliminationConstraint.minimize", "EliminationConstraint.fulfill",
+        "TypeOperator.subtype", "with_parameters"])
+    lc.start()
     n, dis = run_engine_cases(rep, f"C03_{tier}", items, on_case=on_case)
+    rep.coverage["anchored_code_lines_executed_by_this_run"] = lc.stop()
     rep.coverage.update({
         "evaluations": n, "distinct_nontrivial": len(distinct), "disagreements": dis,
         "rule": "random hierarchies (3-7 base types in a forest, unary/binary/contravariant compound operators); "
